@@ -1436,31 +1436,32 @@ theorem pomdp_copy_valid (kb ko : Rep) (m : Src) (O : Nat) (om : Tab3) (s : St)
 
 /-- whatever `Factored::MDP::CooperativeModel(graph, transitions, rewards, discount)` accepts is well formed: non-empty
     spaces, one parent set and one transition matrix per state feature with the shape the graph dictates, every
-    transition row a strict distribution, every reward basis with well-formed tags and the matching shape — and, when
-    the constructor checks it (`chk`, read from the source; true after fix C06-3), a discount in (0,1]. -/
-theorem coop_accepted_wellformed (chk : Bool) (g : Graph) (mats : List Mat) (bases : List Basis) (d : XRat)
-    (h : coopAccepts chk g mats bases d = true) :
-    g.S.length ≠ 0 ∧ g.A.length ≠ 0 ∧ g.parents.length = g.S.length ∧ mats.length = g.S.length ∧
+    transition row a strict distribution, every reward basis with well-formed tags and the matching shape, and the
+    constructor's discount test (if the source has one) did not fire. -/
+theorem coop_accepted_wellformed (rej : Bool) (g : Graph) (mats : List Mat) (bases : List Basis)
+    (h : coopAccepts rej g mats bases = true) :
+    rej = false ∧ g.S.length ≠ 0 ∧ g.A.length ≠ 0 ∧ g.parents.length = g.S.length ∧ mats.length = g.S.length ∧
     (∀ i < g.S.length, (mats.getD i default).rows = g.sizes.getD i 0 ∧ (mats.getD i default).cols = g.S.getD i 0 ∧
         ∀ j < (mats.getD i default).rows,
           RowS ((List.range (mats.getD i default).cols).map (fun x => get2 (mats.getD i default).ent j x))) ∧
     (∀ b ∈ bases, checkTag g.A b.actionTag = .none ∧ checkTag g.S b.tag = .none ∧
-        b.cols = spacePartial g.A b.actionTag ∧ b.rows = spacePartial g.S b.tag) ∧
-    (chk = true → d ≠ .nan → DiscOK d) := by
+        b.cols = spacePartial g.A b.actionTag ∧ b.rows = spacePartial g.S b.tag) := by
   simp only [coopAccepts, Bool.and_eq_true, Bool.not_eq_true', bne_iff_ne, ne_eq, beq_iff_eq,
     List.all_eq_true, List.mem_range] at h
   obtain ⟨⟨⟨⟨⟨⟨hd, hS⟩, hA⟩, hP⟩, hM⟩, hT⟩, hB⟩ := h
-  refine ⟨hS, hA, hP, hM, ?_, ?_, ?_⟩
+  refine ⟨hd, hS, hA, hP, hM, ?_, ?_⟩
   · intro i hi
     obtain ⟨⟨h1, h2⟩, h3⟩ := hT i hi
     exact ⟨h1, h2, fun j hj => (isProbLoop_iff _).1 (h3 j hj)⟩
   · intro b hb
     obtain ⟨⟨⟨h1, h2⟩, h3⟩, h4⟩ := hB b hb
     exact ⟨h1, h2, h3, h4⟩
-  · intro hc hnan
-    subst hc
-    simp only [Bool.true_and] at hd
-    exact discountOKfinite_sound _ (discGuard_ok .dense).1 d hnan hd
+
+/-- … and when that test is a guard passing the decision procedure (true of `!(discount_ > 0.0 && discount_ <= 1.0)`,
+    fix C06-3), the accepted discount is in (0,1] — nan included -/
+theorem coop_accepted_discount (gd : GExpr) (hg : gd.discountOK = true) (g : Graph) (mats : List Mat) (bases : List Basis)
+    (d : XRat) (h : coopAccepts (gd.eval d) g mats bases = true) : DiscOK d :=
+  discountOK_sound gd hg d (coop_accepted_wellformed _ g mats bases h).1
 
 /-! ## OBLIGATIONS over the generated order facts (re-opened by any reordering in the source) -/
 
